@@ -301,6 +301,7 @@ pub fn run(args: &[String]) {
         Some("search") => search(args),
         Some("one") => one(args),
         Some("probe") => probe(args),
+        Some("attach_probe") => attach_probe(),
         _ => {
             eprintln!("c13 classify|delete|passes|fonts|api|search|one|probe");
             std::process::exit(2)
@@ -940,5 +941,31 @@ fn probe(args: &[String]) {
     match predicate(&c) {
         Ok(_) => println!("hidden yes"),
         Err(e) => println!("hidden no | {}", e),
+    }
+}
+
+/// Deterministic probe: a font whose GPOS attaches an ignorable's own glyph (GDEF class mark) to a base.
+/// zero_width_default_ignorables runs before GPOS::position_finish_offsets (which turns the attachment into an
+/// offset), so the hidden glyph ends up with the attachment offset.
+fn attach_probe() {
+    use crate::fontgen::*;
+    let mut f = FontSpec::basic(5);
+    f.cmap = vec![(0x20, 4), (0x61, 1), (0x034F, 2), (0x200D, 3)];
+    f.gdef = Some(Gdef { glyph_classes: vec![(1, 1), (2, 3), (3, 3), (4, 1)], mark_attach_classes: vec![], mark_glyph_sets: vec![] });
+    f.gpos = Some(Layout::single_feature(
+        *b"mark",
+        vec![Lookup::one(PosSubtable::MarkBase {
+            mark_coverage: Coverage::Glyphs(vec![2, 3]),
+            base_coverage: Coverage::Glyphs(vec![1]),
+            class_count: 1,
+            marks: vec![(0, Anchor { x: 50, y: 60 }), (0, Anchor { x: 50, y: 60 })],
+            bases: vec![vec![Some(Anchor { x: 300, y: 400 })]],
+        })],
+    ));
+    let data = build(&f);
+    let face = Face::from_slice(&data, 0).expect("generated font");
+    for (cp, flags) in [(0x034Fu32, 0u32), (0x200D, 0), (0x034F, 4)] {
+        let out = shape(&face, &[0x61, cp], Some(Direction::LeftToRight), flags, 0);
+        println!("attach_probe text=61,{:X} flags={} -> {}", cp, flags, out.map(|o| fmt_out(&o)).unwrap_or_else(|e| format!("panic {}", e)));
     }
 }
